@@ -201,4 +201,8 @@ def read_frames(stream, max_calls=None):
 
 
 def fields_of(f):
-    return (int(f.frame_type), int(f.recipient), int(f.sender), int(f.econet_type), int(f.econet_version), bytes(f.message))
+    try:
+        m = bytes(f.message)
+    except Exception as e:  # noqa: BLE001 -- reading the payload of a delivered frame must not raise
+        m = ("!" + type(e).__name__).encode()
+    return (int(f.frame_type), int(f.recipient), int(f.sender), int(f.econet_type), int(f.econet_version), m)
